@@ -228,11 +228,17 @@ ZeroInterlock(C, fs) ==
 NoDifference(C, fs) == \A d \in D : Gone(C, fs, d) = {} /\ Fresh(C, fs, d) = {}
 
 SrcsFull(C, fs, srcs) == Eager([d \in D |-> Eager([n \in Fresh(C, fs, d) |-> SrcOf(srcs, d, n)])])
+(* A candidate source whose own record is replaced in this scan (same path, new stamp, on another disk) is removed
+   from the stamp index by that disk's scan thread while the threads run in parallel (scan.c:993): whether it is
+   still found is a matter of scheduling, so both outcomes are admitted.  Sources that are merely deleted stay
+   available until all disks are scanned (scan.c:1668-1700). *)
+StableSources(C, fs, d, n) == {x \in CopySources(C, fs, d, n) : x[2] \notin Changed(C, fs, x[1])}
 SrcsOK(C, fs, srcs, nocopy) ==
     \A d \in D : \A n \in Fresh(C, fs, d) :
         LET s == SrcOf(srcs, d, n)
-            cs == CopySources(C, fs, d, n)
-        IN IF nocopy \/ cs = {} THEN s = <<>> ELSE <<s[1], s[2]>> \in cs
+        IN IF nocopy THEN s = <<>>
+           ELSE IF s = <<>> THEN StableSources(C, fs, d, n) = {}
+           ELSE <<s[1], s[2]>> \in CopySources(C, fs, d, n)
 
 Scan(C, fs, srcs0, keep_past) ==
     LET srcs == SrcsFull(C, fs, srcs0)
@@ -336,8 +342,8 @@ Resize(par, n) == [l \in Levels |-> [q \in 1..n |-> IF q <= Len(par[l]) THEN par
    deleted entries, the info and the parity cells of position p.  The result is therefore assembled from
    the per-stripe results, all computed from the state after the scan (no recursion: TLC evaluates
    arguments of recursive operators by name). *)
-SyncAll(M, fs, par, bm, now, ff, rlen) ==
-    LET en0 == {p \in 0..(bm - 1) : StripeEnabled(M, p, ff)}
+SyncRange(M, fs, par, lo, bm, now, ff, rlen) ==
+    LET en0 == {p \in lo..(bm - 1) : StripeEnabled(M, p, ff)}
         R == Eager([p \in en0 |-> SyncStripe(M, fs, par, p, now, ff, rlen)])
         ab == {p \in en0 : R[p].abort}
         pa == IF ab = {} THEN bm ELSE Min(ab)                 \* the sync stops at this stripe
@@ -353,6 +359,7 @@ SyncAll(M, fs, par, bm, now, ff, rlen) ==
         err |-> SumSeq([p \in 1..bm |-> IF (p - 1) \in en THEN R[p - 1].err ELSE 0]),
         silent |-> SumSeq([p \in 1..bm |-> IF (p - 1) \in en THEN R[p - 1].silent ELSE 0]),
         aborted |-> ab # {}, ndone |-> Cardinality(en)]
+SyncAll(M, fs, par, bm, now, ff, rlen) == SyncRange(M, fs, par, 0, bm, now, ff, rlen)
 
 (* Sync: C = content on disk, fs0 = data at scan time, fs1 = data when the stripes are read.
    opts = [force_full, force_empty, force_zero, nocopy]; srcs = copy-source choice *)
@@ -365,16 +372,22 @@ SyncResult(C, fs0, fs1, par, now, opts, srcs) ==
         small == ~opts.force_full /\ \E l \in Levels : Len(par[l]) < UsedMax(M)
         par1 == Resize(par, bm)
         \* a SIGINT/SIGTERM stops the run gracefully after the stripe being processed (opts.stop = position + 1, 0 = none)
-        bmp == IF "stop" \in DOMAIN opts /\ opts.stop > 0 /\ opts.stop < bm THEN opts.stop ELSE bm
-        r == SyncAll(M, fs1, par1, bmp, now, opts.force_full, [l \in Levels |-> Len(par[l])])
+        \* -S/-B: only the stripes bstart .. bstart+bcount-1 are processed (bcount = 0: to the end); the parity files
+        \* are still resized to the full allocated size (sync.c:1462)
+        lo == IF "bstart" \in DOMAIN opts THEN opts.bstart ELSE 0
+        hi == IF "bcount" \in DOMAIN opts /\ opts.bcount # 0 /\ lo + opts.bcount < bm THEN lo + opts.bcount ELSE bm
+        bmp == IF "stop" \in DOMAIN opts /\ opts.stop > 0 /\ opts.stop < hi THEN opts.stop ELSE hi
+        r == SyncRange(M, fs1, par1, lo, bmp, now, opts.force_full, [l \in Levels |-> Len(par[l])])
         \* the state is saved before the stripes are processed when the scan or the resize changed something,
         \* and again at the end unless --test-kill-after-sync
         scanchg == \E d \in D : Gone(L0, fs0, d) # {} \/ Fresh(L0, fs0, d) # {} \/ Realloc(L0, fs0, d) # {}
-        resized == \E l \in Levels : Len(par[l]) # bm
+        \* parity_chsize reports "modified" when the size differs from the recorded one; format 2 content files do not
+        \* record parity sizes, so with them every sync that gets this far rewrites the content (opts.v3 = sizes recorded)
+        resized == ~("v3" \in DOMAIN opts /\ opts.v3) \/ \E l \in Levels : Len(par[l]) # bm
         presave == IF scanchg \/ resized THEN Normalize(M) ELSE C
-        en == {p \in 0..(bmp - 1) : StripeEnabled(M, p, opts.force_full)}
+        en == {p \in lo..(bmp - 1) : StripeEnabled(M, p, opts.force_full)}
     IN IF ~SrcsOK(L0, fs0, srcs, opts.nocopy) THEN [C |-> C, par |-> par, out |-> [exit |-> "bad-copy-source", err |-> 0, silent |-> 0]]
-       ELSE IF refused \/ small THEN [C |-> C, par |-> par, out |-> [exit |-> "refused", err |-> 0, silent |-> 0]]
+       ELSE IF refused \/ small \/ lo > bm THEN [C |-> C, par |-> par, out |-> [exit |-> "refused", err |-> 0, silent |-> 0]]
        ELSE [C |-> IF opts.kill_after THEN presave
                    ELSE IF (en = {} \/ (r.aborted /\ r.ndone = 0)) /\ ~scanchg /\ ~resized THEN C ELSE Normalize(r.M),
              par |-> r.par,
@@ -435,10 +448,21 @@ CheckStripe(C, fs, par, p, present0) ==
         buf0 == Eager([d \in D |-> IF d \in files /\ rd[d].ok THEN rd[d].v ELSE "Z"])
         valid_parity == \A d \in D : ~InvalidParity(blk[d])
         used_parity == files # {}
+        \* blocks with a recorded hash are first looked for in any file of the array that has the size and the time
+        \* stamp of the recorded file, at the same offset, and are taken only if they match the hash
+        \* (state_search_array / state_search_fetch, search.c; not in audit-only mode)
+        allfs == UNION {{<<e, m>> : m \in DOMAIN fs[e]} : e \in D}
+        fetched == IF present0 = {} THEN {} ELSE
+                   {d \in bad : blk[d].st \in {"BLK", "REP"} /\
+                       \E x \in allfs : LET g == fs[x[1]][x[2]]
+                                             rec == C.cf[d][blk[d].n]
+                                         IN g.sz = rec.sz /\ g.mt = rec.mt /\ blk[d].i <= Len(g.b)
+                                            /\ HashOf(g.b[blk[d].i], lens[d]) = blk[d].h}
+        buf1 == Eager([d \in D |-> IF d \in fetched THEN blk[d].h ELSE buf0[d]])
         \* strategy 1: the parity is up to date
-        F1 == bad
+        F1 == bad \ fetched
         V1 == {d \in F1 : blk[d].st \in {"BLK", "REP"}}
-        s1 == RepairStep(par, p, F1, V1, buf0, present, blk, lens)
+        s1 == RepairStep(par, p, F1, V1, buf1, present, blk, lens)
         ood1 == {d \in bad : blk[d].st = "CHG" /\
                    \/ blk[d].h = "INVALID"
                    \/ (blk[d].h = "ZERO" /\ s1.buf[d] = "Z")
@@ -469,7 +493,16 @@ CheckStripe(C, fs, par, p, present0) ==
 (* Returns fs', par', and out = [exit, derr (data errors found: <<p,d,n>>),*)
 (* perr (<<p,l>>), recovered (<<d,n>>), unrec (<<d,n>>), fixedpar]         *)
 (***************************************************************************)
-CheckAll(C0, fs, par, present) == LET C == WithIndex(C0) IN Eager([p \in 0..(AllocatedMax(C) - 1) |-> CheckStripe(C, fs, par, p, present)])
+(* stripes outside the -S/-B range are not processed at all *)
+NoStripe == [ok |-> TRUE, bad |-> {}, ood |-> {}, buf |-> ZeroVec, perr |-> {}, lost |-> {}, rderr |-> {}, pv |-> ZeroVec,
+             blk |-> <<>>, lens |-> <<>>]
+RangeOf(rg, bm) == LET lo == IF "bstart" \in DOMAIN rg THEN rg.bstart ELSE 0
+                       hi == IF "bcount" \in DOMAIN rg /\ rg.bcount # 0 /\ lo + rg.bcount < bm THEN lo + rg.bcount ELSE bm
+                   IN lo..(hi - 1)
+CheckRange(C0, fs, par, present, rng) ==
+    LET C == WithIndex(C0)
+    IN Eager([p \in 0..(AllocatedMax(C) - 1) |-> IF p \in rng THEN CheckStripe(C, fs, par, p, present) ELSE NoStripe])
+CheckAll(C0, fs, par, present) == CheckRange(C0, fs, par, present, 0..(AllocatedMax(C0) - 1))
 
 (* a file found larger than recorded is reported once, at the first of its blocks that is processed *)
 SizeErrors(C, fs) == {<<Min({C.cf[x[1]][x[2]].bl[i].pos : i \in 1..Len(C.cf[x[1]][x[2]].bl)}), x[1]>> :
@@ -477,19 +510,29 @@ SizeErrors(C, fs) == {<<Min({C.cf[x[1]][x[2]].bl[i].pos : i \in 1..Len(C.cf[x[1]
                                   /\ Len(C.cf[y[1]][y[2]].bl) > 0 /\ y[2] \in DOMAIN fs[y[1]]
                                   /\ fs[y[1]][y[2]].sz > C.cf[y[1]][y[2]].sz}}
 
-FileOutcome(C, fs, R, d, n) ==
+FileOutcome(C, fs, R, d, n, rng) ==
     LET f == C.cf[d][n]
         nb == Len(f.bl)
         st(i) == R[f.bl[i].pos]
-        badi == {i \in 1..nb : d \in st(i).bad}
+        inr == {i \in 1..nb : f.bl[i].pos \in rng}
+        \* the final status, the rename of a damaged file and the time stamp are handled at the last block of the
+        \* file (check.c:631): a file whose last block is outside the range is never finished
+        finished == nb > 0 /\ nb \in inr
+        badi == {i \in inr : d \in st(i).bad}
         damaged == \E i \in badi : ~st(i).ok \/ d \in st(i).ood
         fixed == \E i \in badi : st(i).ok /\ d \notin st(i).ood
-        old(i) == IF n \in DOMAIN fs[d] /\ i <= Len(fs[d][n].b) THEN fs[d][n].b[i] ELSE "G:hole"
+        \* a short last block of the existing file reads as "old bytes + zeros" once a later block is written
+        extended == n \in DOMAIN fs[d] /\ \E i \in badi : st(i).ok /\ i > Len(fs[d][n].b)
+        old(i) == IF n \in DOMAIN fs[d] /\ i <= Len(fs[d][n].b)
+                  THEN (IF i = Len(fs[d][n].b) /\ extended THEN Written(fs[d][n].b[i], BS) ELSE fs[d][n].b[i])
+                  ELSE "Z"
         larger == n \in DOMAIN fs[d] /\ fs[d][n].sz > f.sz
         \* a file found larger than recorded is cut to the recorded size (check.c:1141)
         newb == Eager([i \in 1..nb |-> IF i \in badi /\ st(i).ok THEN Written(st(i).buf[d], BlkLen(f.sz, i))
                                        ELSE IF larger THEN Written(old(i), BlkLen(f.sz, i)) ELSE old(i)])
-    IN [bad |-> badi # {}, damaged |-> damaged, fixed |-> fixed /\ ~damaged, b |-> newb, larger |-> larger]
+    IN [bad |-> badi # {}, damaged |-> damaged, fixed |-> fixed /\ ~damaged, b |-> newb, larger |-> larger,
+        finished |-> finished, touched |-> inr # {}, created |-> inr # {} /\ n \notin DOMAIN fs[d],
+        wr |-> {i \in badi : st(i).ok}]
 
 (* sel[d] = names selected by the filters; files outside are never written *)
 Unrec(n) == n \o ".unrecoverable"
@@ -501,51 +544,74 @@ FixView(C, fs, sel) ==
         LET back == {n \in DOMAIN C.cf[d] : n \in sel[d] /\ Len(C.cf[d][n].bl) > 0 /\ n \notin DOMAIN fs[d] /\ Unrec(n) \in DOMAIN fs[d]}
         IN Eager([n \in (DOMAIN fs[d] \ {Unrec(m) : m \in back}) \cup back |-> IF n \in back THEN fs[d][Unrec(n)] ELSE fs[d][n]])])
 
-FixResult(C, fs0, par, present, sel) ==
+AnyMt == <<0 - 1, 0>>      \* time stamp left by the kernel after a write that is not followed by the restore of the recorded one
+FixRange(C, fs0, par, present, sel, rg) ==
     LET fs == FixView(C, fs0, sel)
-        R == CheckAll(C, fs, par, present)
         bm == AllocatedMax(C)
-        fo == Eager([d \in D |-> Eager([n \in DOMAIN C.cf[d] |-> FileOutcome(C, fs, R, d, n)])])
+        rng == RangeOf(rg, bm)
+        R == CheckRange(C, fs, par, present, rng)
+        fo == Eager([d \in D |-> Eager([n \in DOMAIN C.cf[d] |-> FileOutcome(C, fs, R, d, n, rng)])])
         isel(d, n) == n \in sel[d]
         allf == UNION {{<<d, n>> : n \in DOMAIN C.cf[d]} : d \in D}
-        unrec == {x \in allf : isel(x[1], x[2]) /\ fo[x[1]][x[2]].damaged}
+        unrec == {x \in allf : isel(x[1], x[2]) /\ fo[x[1]][x[2]].damaged /\ fo[x[1]][x[2]].finished}
         empty0 == {x \in allf : isel(x[1], x[2]) /\ C.cf[x[1]][x[2]].sz = 0 /\ (x[2] \notin DOMAIN fs[x[1]] \/ fs[x[1]][x[2]].sz # 0)}
-        recov == {x \in allf : isel(x[1], x[2]) /\ fo[x[1]][x[2]].fixed} \cup empty0
-        names(d) == ((DOMAIN fs[d] \ {n \in DOMAIN C.cf[d] : <<d, n>> \in unrec}) \cup {n \in DOMAIN C.cf[d] : <<d, n>> \in recov})
+        recov == {x \in allf : isel(x[1], x[2]) /\ fo[x[1]][x[2]].fixed /\ fo[x[1]][x[2]].finished} \cup empty0
+        \* files that fix had to create and could not finish are removed again (check.c:1860-1885)
+        dropped == {x \in allf : isel(x[1], x[2]) /\ fo[x[1]][x[2]].created /\ ~fo[x[1]][x[2]].finished}
+        \* files written in part (some blocks in the range) but not finished keep their name
+        partial == {x \in allf : isel(x[1], x[2]) /\ fo[x[1]][x[2]].bad /\ ~fo[x[1]][x[2]].finished /\ ~fo[x[1]][x[2]].created}
+        names(d) == (((DOMAIN fs[d] \ {n \in DOMAIN C.cf[d] : <<d, n>> \in unrec}) \cup {n \in DOMAIN C.cf[d] : <<d, n>> \in recov})
+                     \ {n \in DOMAIN C.cf[d] : <<d, n>> \in dropped})
                     \cup {Unrec(n) : n \in {m \in DOMAIN C.cf[d] : <<d, m>> \in unrec}}
         fs1 == [d \in D |-> [n \in names(d) |->
                     IF IsUnrec(n) /\ \E m \in DOMAIN C.cf[d] : <<d, m>> \in unrec /\ Unrec(m) = n
                     THEN [b |-> <<>>, mt |-> <<0, 0>>, sz |-> 0]            \* content of an .unrecoverable file is unspecified
                     ELSE IF <<d, n>> \in recov
                     THEN [b |-> fo[d][n].b, mt |-> C.cf[d][n].mt, sz |-> C.cf[d][n].sz]
-                    ELSE IF n \in DOMAIN C.cf[d] /\ isel(d, n) /\ fo[d][n].larger
-                         THEN [b |-> fo[d][n].b, mt |-> fs[d][n].mt, sz |-> C.cf[d][n].sz]
+                    ELSE IF <<d, n>> \in partial
+                         THEN LET top == Max({0} \cup fo[d][n].wr)
+                                  nbl == Max({Len(fs[d][n].b), top})
+                              IN [b |-> [i \in 1..nbl |-> IF i \in fo[d][n].wr THEN fo[d][n].b[i]
+                                                           ELSE IF i <= Len(fs[d][n].b) THEN fs[d][n].b[i] ELSE "Z"],
+                                  mt |-> AnyMt,
+                                  sz |-> Max({fs[d][n].sz} \cup {(top - 1) * BS + BlkLen(C.cf[d][n].sz, top) : x \in {1} \cap {y \in {1} : top > 0}})]
+                    ELSE IF n \in DOMAIN C.cf[d] /\ isel(d, n) /\ fo[d][n].larger /\ fo[d][n].touched
+                         THEN [b |-> fo[d][n].b, mt |-> AnyMt, sz |-> C.cf[d][n].sz]
                     ELSE fs[d][n]]]
-        pfix == {x \in (0..(bm - 1)) \X Levels : R[x[1]].ok /\ (x[2] \in R[x[1]].perr \/ x[2] \in R[x[1]].lost)}
+        pfix == {x \in rng \X Levels : R[x[1]].ok /\ (x[2] \in R[x[1]].perr \/ x[2] \in R[x[1]].lost)}
         par0 == Resize(par, bm)
         \* parity files are grown to the allocated size first and cut back to the part that is valid
         \* (present before, or written by this run) at the end (check.c:2073, parity_truncate)
         plen(l) == IF Len(par[l]) >= bm THEN bm ELSE Max({Len(par[l])} \cup {x[1] + 1 : x \in {y \in pfix : y[2] = l}})
         par1 == [l \in Levels |-> [q \in 1..plen(l) |-> IF <<q - 1, l>> \in pfix THEN [k |-> "V", w |-> R[q - 1].pv] ELSE par0[l][q]]]
-        derr == {x \in (0..(bm - 1)) \X D : x[2] \in R[x[1]].bad} \cup SizeErrors(C, fs)
-        nerr == Cardinality(derr) + Cardinality({x \in (0..(bm - 1)) \X Levels : x[2] \in R[x[1]].perr \cup R[x[1]].rderr})
-        nunrec == Cardinality({p \in 0..(bm - 1) : ~R[p].ok \/ R[p].ood # {}})
-    IN [fs |-> fs1, par |-> par1, R |-> R,
+        derr == {x \in rng \X D : x[2] \in R[x[1]].bad} \cup {y \in SizeErrors(C, fs) : y[1] \in rng}
+        nerr == Cardinality(derr) + Cardinality({x \in rng \X Levels : x[2] \in R[x[1]].perr \cup R[x[1]].rderr})
+        nunrec == Cardinality({p \in rng : ~R[p].ok \/ R[p].ood # {}})
+        beyond == "bstart" \in DOMAIN rg /\ rg.bstart > bm          \* refused: start beyond the end of the array
+    IN IF beyond THEN [fs |-> fs0, par |-> par, R |-> R, out |-> [exit |-> "none", derr |-> {}, unrec |-> {}, recovered |-> {}, pfix |-> {}, nunrec |-> 0]]
+       ELSE
+       [fs |-> fs1, par |-> par1, R |-> R,
         out |-> [exit |-> IF nunrec # 0 THEN "unrecoverable" ELSE IF nerr = 0 /\ recov = {} /\ pfix = {} THEN "ok" ELSE "recovered",
                  derr |-> derr, unrec |-> unrec, recovered |-> recov, pfix |-> pfix, nunrec |-> nunrec]]
 
-CheckResult(C, fs, par, present, audit) ==
-    LET R == CheckAll(C, fs, par, IF audit THEN {} ELSE present)
-        bm == AllocatedMax(C)
-        derr == {<<p, d>> \in (0..(bm - 1)) \X D : d \in R[p].bad} \cup SizeErrors(C, fs)
+FixResult(C, fs0, par, present, sel) == FixRange(C, fs0, par, present, sel, <<>>)
+
+CheckResultR(C, fs, par, present, audit, rg) ==
+    LET bm == AllocatedMax(C)
+        rng == RangeOf(rg, bm)
+        R == CheckRange(C, fs, par, IF audit THEN {} ELSE present, rng)
+        derr == {<<p, d>> \in (0..(bm - 1)) \X D : d \in R[p].bad} \cup {y \in SizeErrors(C, fs) : y[1] \in rng}
         perr == {<<p, l>> \in (0..(bm - 1)) \X Levels : l \in R[p].perr \cup R[p].rderr}
         nunrec == Cardinality({p \in 0..(bm - 1) : R[p].bad # {} /\ (~R[p].ok \/ R[p].ood # {})})
         missing0 == {<<d, n>> \in UNION {{<<d, n>> : n \in DOMAIN C.cf[d]} : d \in D} :
                         C.cf[d][n].sz = 0 /\ (n \notin DOMAIN fs[d] \/ fs[d][n].sz # 0)}
-    IN [exit |-> IF audit THEN (IF derr = {} /\ missing0 = {} THEN "ok" ELSE "error")
+    IN IF "bstart" \in DOMAIN rg /\ rg.bstart > bm THEN [exit |-> "none", derr |-> {}, perr |-> {}, nunrec |-> 0] ELSE
+       [exit |-> IF audit THEN (IF derr = {} /\ missing0 = {} THEN "ok" ELSE "error")
                  ELSE IF nunrec # 0 THEN "unrecoverable"
                  ELSE IF derr = {} /\ perr = {} /\ missing0 = {} THEN "ok" ELSE "recoverable",
         derr |-> derr, perr |-> perr, nunrec |-> nunrec]
+
+CheckResult(C, fs, par, present, audit) == CheckResultR(C, fs, par, present, audit, <<>>)
 
 (***************************************************************************)
 (* Scrub (scrub.c).  sel = set of positions selected by the plan.          *)
